@@ -59,6 +59,30 @@ func (c *FnCtx) contractParamDummies(fc *FuncContract, fn *ssa.Function) (map[st
 
 // sigOfKey finds the signature for an interface-method key "(pkg.Iface).Method" or a named func type "pkg.T".
 func (e *Engine) sigOfKey(key string) (*types.Signature, types.Type) {
+	if strings.HasPrefix(key, "field:") {
+		parts := strings.Split(key[6:], ".")
+		if len(parts) != 3 {
+			return nil, nil
+		}
+		p := e.byName[parts[0]]
+		if p == nil {
+			return nil, nil
+		}
+		obj := p.Scope().Lookup(parts[1])
+		if obj == nil {
+			return nil, nil
+		}
+		if st, ok := obj.Type().Underlying().(*types.Struct); ok {
+			for i := 0; i < st.NumFields(); i++ {
+				if st.Field(i).Name() == parts[2] {
+					if sig, ok := st.Field(i).Type().Underlying().(*types.Signature); ok {
+						return sig, nil
+					}
+				}
+			}
+		}
+		return nil, nil
+	}
 	if strings.HasPrefix(key, "(") {
 		end := strings.Index(key, ")")
 		tn := key[1:end]
